@@ -52,21 +52,33 @@ func vpC04Run(waf *corazawaf.WAF, names, vals []string, where []int) vpC04Outcom
 // every collection map: interruption, fired rules, match triples (as a multiset) and the
 // anomaly counter must coincide.
 func VpC04Determinism() {
-	confs := []string{
-		// rules sharing a transformation prefix over overlapping targets, with a counter
-		"SecRule ARGS \"@contains x\" \"id:1,phase:2,pass,t:lowercase,setvar:tx.score=+1\"\n" +
-			"SecRule ARGS:a \"@contains x\" \"id:2,phase:2,pass,t:lowercase,t:removeNulls,setvar:tx.score=+2\"\n" +
-			"SecRule TX:score \"@ge 4\" \"id:3,phase:2,deny,status:403\"\n",
-		// the first matching value decides which rule interrupts
-		"SecRule ARGS_GET \"@streq X\" \"id:1,phase:2,pass,setvar:tx.score=+1\"\n" +
-			"SecRule ARGS \"@streq x\" \"id:2,phase:2,deny,status:401,t:lowercase\"\n" +
-			"SecRule REQUEST_HEADERS:a \"@streq x\" \"id:3,phase:2,deny,status:402\"\n",
-		// names and counts
-		"SecRule ARGS_NAMES \"@streq a\" \"id:1,phase:2,pass,setvar:tx.score=+1\"\n" +
-			"SecRule &ARGS:a \"@ge 2\" \"id:2,phase:2,pass,setvar:tx.score=+5\"\n" +
-			"SecRule ARGS:/^[ab]$/ \"@streq x\" \"id:3,phase:2,pass,t:lowercase,setvar:tx.score=+3\"\n",
-	}
+	confs := vpC04Confs
+	_ = confs
 	ci := vp.Choice("conf", len(confs))
+	_ = ci
+	vpC04Body(confs, ci)
+}
+
+var vpC04Confs = []string{
+	// rules sharing a transformation prefix over overlapping targets, with a counter
+	"SecRule ARGS \"@contains x\" \"id:1,phase:2,pass,t:lowercase,setvar:tx.score=+1\"\n" +
+		"SecRule ARGS:a \"@contains x\" \"id:2,phase:2,pass,t:lowercase,t:removeNulls,setvar:tx.score=+2\"\n" +
+		"SecRule TX:score \"@ge 4\" \"id:3,phase:2,deny,status:403\"\n",
+	// the first matching value decides which rule interrupts
+	"SecRule ARGS_GET \"@streq X\" \"id:1,phase:2,pass,setvar:tx.score=+1\"\n" +
+		"SecRule ARGS \"@streq x\" \"id:2,phase:2,deny,status:401,t:lowercase\"\n" +
+		"SecRule REQUEST_HEADERS:a \"@streq x\" \"id:3,phase:2,deny,status:402\"\n",
+	// flow state: an allow that only some requests trigger, followed by a deny
+	"SecRule ARGS_GET \"@streq x\" \"id:1,phase:1,allow\"\n" +
+		"SecRule ARGS \"@streq X\" \"id:2,phase:2,deny,status:403\"\n" +
+		"SecRule ARGS:a \"@streq y\" \"id:3,phase:2,pass,skip:1,setvar:tx.score=+1\"\n",
+	// names and counts
+	"SecRule ARGS_NAMES \"@streq a\" \"id:1,phase:2,pass,setvar:tx.score=+1\"\n" +
+		"SecRule &ARGS:a \"@ge 2\" \"id:2,phase:2,pass,setvar:tx.score=+5\"\n" +
+		"SecRule ARGS:/^[ab]$/ \"@streq x\" \"id:3,phase:2,pass,t:lowercase,setvar:tx.score=+3\"\n",
+}
+
+func vpC04Body(confs []string, ci int) {
 	waf := vpBuild("c04:"+vpD(ci), "SecRuleEngine On\nSecRequestBodyAccess On\n"+confs[ci])
 	vp.SymbolicMapOrder(3, "github.com/corazawaf/coraza/v3/internal/collections")
 	p := 2 + vp.Choice("nargs", vp.Param("ARGS", 2))
@@ -90,5 +102,35 @@ func VpC04Determinism() {
 	vp.Assert(vpMultisetEq(o1.fired, o2.fired), "set of fired rules differs between two runs of the same request")
 	vp.Assert(vpMultisetEq(o1.triples, o2.triples), "matched (variable, key, value) triples differ between two runs of the same request")
 	vp.Assert(o1.score == o2.score, "anomaly counter differs between two runs of the same request")
+	vp.Reached("end")
+}
+
+// VpC04LongLived: a request served by a WAF that has just served a different request (same
+// configuration, recycled transaction object) has the outcome it has on a brand-new WAF.
+func VpC04LongLived() {
+	confs := vpC04Confs
+	ci := vp.Choice("conf", len(confs))
+	waf := vpBuild("c04:"+vpD(ci), "SecRuleEngine On\nSecRequestBodyAccess On\n"+confs[ci])
+	fresh := vpBuild("c04fresh:"+vpD(ci), "SecRuleEngine On\nSecRequestBodyAccess On\n"+confs[ci])
+	p := 2
+	names := []string{"a", "b"}
+	where := []int{0, vp.Choice("where", 2)}
+	vals1 := make([]string, p)
+	vals2 := make([]string, p)
+	for i := 0; i < p; i++ {
+		c := vp.Byte("value1")
+		vp.Assume(c == 'x' || c == 'X' || c == 'y')
+		vals1[i] = string([]byte{c})
+		d := vp.Byte("value2")
+		vp.Assume(d == 'x' || d == 'X' || d == 'y')
+		vals2[i] = string([]byte{d})
+	}
+	_ = vpC04Run(waf, names, vals1, where)
+	o3 := vpC04Run(waf, names, vals2, where)
+	o4 := vpC04Run(fresh, names, vals2, where)
+	vp.Assert(o3.interrupted == o4.interrupted && o3.ruleID == o4.ruleID && o3.status == o4.status, "interruption differs between a long-lived and a fresh WAF")
+	vp.Assert(vpMultisetEq(o3.fired, o4.fired), "fired rules differ between a long-lived and a fresh WAF")
+	vp.Assert(vpMultisetEq(o3.triples, o4.triples), "matched triples differ between a long-lived and a fresh WAF")
+	vp.Assert(o3.score == o4.score, "anomaly counter differs between a long-lived and a fresh WAF")
 	vp.Reached("end")
 }
